@@ -140,7 +140,7 @@ func init() {
 	reg(&PropDef{
 		ID:    "C14",
 		Title: "Bridge deposits mint once, conditionally; withdrawals burn what they attest",
-		Funcs: append(fcNP("x/bridge/keeper.Keeper.ClaimDeposit", "x/bridge/keeper.Keeper.WithdrawTokens", "x/bridge/keeper.msgServer.WithdrawTokens", "x/bridge/keeper.Keeper.CreateWithdrawalAggregate"),
+		Funcs: append(fcNP("x/bridge/keeper.Keeper.ClaimDeposit", "x/bridge/keeper.Keeper.WithdrawTokens", "x/bridge/keeper.msgServer.WithdrawTokens", "x/bridge/keeper.Keeper.CreateWithdrawalAggregate", "x/oracle/keeper.Keeper.PreventBridgeWithdrawalReport"),
 			fc("x/bridge/keeper.Keeper.DecodeDepositReportValue")...),
 		Sweeps: []string{"sol_encodings"},
 		Assumptions: []string{
@@ -151,7 +151,7 @@ func init() {
 		},
 		NotDecided: []string{
 			"DecodeDepositReportValue truncates amount/10^12 with big.Int.Int64(): for a reported amount of 2^63 * 10^12 or more the coin amount wraps (NewInt64Coin panics on a negative one): the decoded-amount clauses are stated for amounts below that bound, the panic obligations are not claimed",
-			"that no reporter can create an aggregate for a withdrawal query (PreventBridgeWithdrawalReport and writers of Aggregates): not yet under contract",
+			"that no reporter can create an aggregate for a withdrawal query as a whole-system statement: decided are that PreventBridgeWithdrawalReport rejects every query data of the form abi.encode(\"TRBBridge\", abi.encode(false, id)) and that SubmitValue rejects what it rejects; the other writers of Aggregates (SetAggregate via SetAggregatedReport) only aggregate submitted reports",
 			"batched claims (msgServer.ClaimDeposits loop)",
 		},
 	})
@@ -248,16 +248,17 @@ func init() {
 		Funcs: fcNP("x/oracle/keeper.msgServer.SubmitValue", "x/oracle/keeper.Keeper.DirectReveal", "x/oracle/keeper.Keeper.HandleBridgeDepositDirectReveal",
 			"x/oracle/keeper.Keeper.TokenBridgeDepositQuery", "x/oracle/keeper.Keeper.SetValue", "x/oracle/keeper.Keeper.CurrentQuery", "x/oracle/keeper.msgServer.Tip",
 			"x/oracle/keeper.Keeper.RotateQueries", "x/oracle/keeper.Keeper.ClearOldqueries", "x/oracle/keeper.Keeper.InitializeQuery",
-			"x/oracle/keeper.Keeper.GetCurrentQueryInCycleList", "x/oracle/keeper.msgServer.UpdateCyclelist", "x/oracle/keeper.Keeper.SetAggregatedReport", "x/oracle.EndBlocker"),
+			"x/oracle/keeper.Keeper.GetCurrentQueryInCycleList", "x/oracle/keeper.msgServer.UpdateCyclelist", "x/oracle/keeper.Keeper.SetAggregatedReport", "x/oracle.EndBlocker",
+			"x/oracle/keeper.Keeper.PreventBridgeWithdrawalReport"),
 		Assumptions: []string{
 			"SetAggregatedReport / EndBlocker are verified under the store invariants stated as their preconditions (a round marked HasRevealedReports is stored under its id and has a report; reports carry their reporter's bech32 string, a power in [1, 2^63), a parsable value; all reports of a round belong to one query; tips are non-negative); SetValue's contract establishes them for the report it writes, the induction over all writers is not carried. The total power of a round is assumed below 2^63 (call-site precondition of the aggregators, not derivable from per-report bounds)",
 			"index iterators are snapshots: removing the round being visited does not change the keys still to come",
-			"trusted contracts: registry DecodeQueryType / DecodeValue / IsValueDecodable / Remove0xPrefix (ABI and string handling), oracle PreventBridgeWithdrawalReport (ABI decoding of the query data), reporter ReporterStake (frame and 0 <= stake < 2^64 whole tokens)",
+			"trusted contracts: registry DecodeQueryType / DecodeValue / IsValueDecodable / Remove0xPrefix (ABI and string handling), reporter ReporterStake (frame and 0 <= stake < 2^64 whole tokens)",
 			"collections Walk / Iterate / Clear and the ghost cardinality count(store) as specified in tools/govc/walk.go and indexiter.go; crypto.Keccak256 of one argument is a function of its content (keccak)",
 			"round and window arithmetic stays below 2^64 (QuerySequencer < 2^64-2, block height + report window < 2^64); the tipper address passed ValidateBasic",
 		},
 		NotDecided: []string{
-			"that bridge-withdrawal queries are never reportable: decided inside PreventBridgeWithdrawalReport by ABI decoding, which is not modelled (only that SubmitValue rejects whatever that function rejects)",
+			"direct-reveal and tip paths for bridge queries beyond SubmitValue (PreventBridgeWithdrawalReport itself is decided: query data abi.encode(\"TRBBridge\", abi.encode(false, id)) is always rejected)",
 			"jail status and selector bookkeeping of the reporter (inside ReporterStake, C10)",
 			"that the aggregate of a closed round is computed with the method of its data spec (dispatch on the first report's AggregateMethod) and stored exactly once: SetAggregatedReport's contract covers removal of exactly the closed rounds with reports and the frame (open rounds and rounds without reports untouched), not the per-round aggregate",
 			"that the cycle list order is fixed: GetCyclelist returns the stored queries in key order, which the iterator model leaves unspecified",
